@@ -142,4 +142,70 @@ theorem machine_total (S : Sem D σ) (hbad : ∀ l d, S.detect l = some d → S.
       | none => simp [hx] at this
       | some r => obtain ⟨s', o⟩ := r; cases o <;> simp
 
+theorem feedAll_append (S : Sem D σ) (m : MSt D σ) (ls : List Str) (l : Str) :
+    feedAll S m (ls ++ [l]) = (feedAll S m ls).bind (fun m' => feed S m' l) := by
+  induction ls generalizing m with
+  | nil => simp only [List.nil_append, feedAll, Option.bind_some]; cases feed S m l <;> rfl
+  | cons x xs ih =>
+    simp only [List.cons_append, feedAll]
+    cases feed S m x with
+    | none => rfl
+    | some m1 => exact ih m1
+
+/-- feeding an ordinary last line (not a directive, continuing nothing, written) leaves the machine
+    with no open directive, an owed line ending, and the line at the end of the output -/
+theorem feed_text_line (S : Sem D σ) (m m1 : MSt D σ) (l : Str) (hd : S.detect l = none)
+    (hcont : ∀ d, S.addLine d l = none) (htext : ∀ s, ∃ l', (S.text s l).2 = some l')
+    (h : feed S m l = some m1) : m1.cur = none ∧ m1.pending = true ∧ ∃ pre l', m1.out = pre ++ l' ∧ ∃ s, (S.text s l).2 = some l' := by
+  have fresh : ∀ (m0 m2 : MSt D σ), m0.cur = none → feedFresh S m0 l = some m2 →
+      m2.cur = none ∧ m2.pending = true ∧ ∃ pre l', m2.out = pre ++ l' ∧ ∃ s, (S.text s l).2 = some l' := by
+    intro m0 m2 hc hf
+    unfold feedFresh at hf
+    simp only [hd] at hf
+    obtain ⟨l', hl'⟩ := htext m0.st
+    rcases hx : S.text m0.st l with ⟨st', o⟩
+    rw [hx] at hf hl'
+    simp only at hl'
+    subst hl'
+    simp only [Option.some.injEq] at hf
+    subst hf
+    exact ⟨by simp [emit, hc], by simp [emit], m0.out ++ (if m0.pending then S.le else []), l', by simp [emit], m0.st, by rw [hx]⟩
+  unfold feed at h
+  split at h
+  · rename_i hc; exact fresh m m1 hc h
+  · rename_i d hc
+    simp only [hcont d] at h
+    split at h
+    · simp at h
+    · rename_i m2 hex
+      have hc2 : m2.cur = none := by
+        unfold execD at hex
+        split at hex
+        · simp at hex
+        · simp at hex; subst hex; rfl
+        · simp [emit] at hex; subst hex; rfl
+      exact fresh m2 m1 hc2 h
+
+/-- C13: when the source ends with an ordinary text line, the output without the option ends with
+    that line (as written after tag substitution) and the option adds exactly one line ending -/
+theorem trailing_text_last (S : Sem D σ) (s0 : σ) (ls : List Str) (l : Str) (hd : S.detect l = none)
+    (hcont : ∀ d, S.addLine d l = none) (htext : ∀ s, ∃ l', (S.text s l).2 = some l')
+    (s : σ) (out : Str) (h : machine S false s0 (ls ++ [l]) = some (s, out)) :
+    machine S true s0 (ls ++ [l]) = some (s, out ++ S.le) ∧
+    ∃ pre l', out = pre ++ l' ∧ ∃ s', (S.text s' l).2 = some l' := by
+  rw [machine_def, feedAll_append] at h ⊢
+  cases hf : feedAll S ⟨none, s0, false, []⟩ ls with
+  | none => simp [hf] at h
+  | some m =>
+    simp only [hf, Option.bind_some] at h ⊢
+    cases hl : feed S m l with
+    | none => simp [hl] at h
+    | some m1 =>
+      obtain ⟨hc, hp, pre, l', ho, hs⟩ := feed_text_line S m m1 l hd hcont htext hl
+      simp only [hl, Option.bind_some, finish, hc, hp, Bool.true_and, Bool.and_false] at h ⊢
+      simp only [Bool.false_eq_true, if_false, List.append_nil, Option.some.injEq, Prod.mk.injEq] at h
+      obtain ⟨h1, h2⟩ := h
+      subst h1; subst h2
+      exact ⟨by simp, pre, l', ho, hs⟩
+
 end Refine
